@@ -122,6 +122,10 @@ class LogSoftmaxPlugin(PrimitiveLeafPlugin):
         prim = LogSoftmaxPlugin._PRIM
 
         def patched_log_softmax(x: ArrayLike, axis: int = -1) -> ArrayLike:
+            if isinstance(axis, (tuple, list)) or axis is None:
+                raise NotImplementedError(
+                    "nnx.log_softmax over several axes (or axis=None) is not supported for ONNX export"
+                )
             return cast(ArrayLike, prim.bind(x, axis=axis))
 
         return patched_log_softmax
